@@ -245,7 +245,8 @@ Inductive obs :=
 | OSubmit (o : list pkt) (failed : option pkt)               (* failed: the write that returned an error *)
 | ODeliver (handed : bool) (o : list pkt) (failed : option pkt)
 | OTick (ret : option Z) (o : list pkt) (dead : bool)        (* o: every write attempted, failed ones included *)
-| OWin.
+| OWin
+| ORefused.                                      (* a submission refused by a channel that has declared dead *)
 
 (* e_sent logs the packets whose write succeeded (only those can reach the peer) *)
 Definition ep_submit (e : endpoint) (body sid now : Z) (fj : option nat) : endpoint * obs :=
@@ -290,7 +291,12 @@ Definition set_ep (s : sys) (x : side) (e : endpoint) : sys :=
 
 Inductive event :=
 (* fj / drops: which writes of the send callback fail during this operation (None / [] = none) *)
-| Submit (x : side) (body sid now : Z) (fj : option nat)     (* x's protocol machine sends a message *)
+| Submit (x : side) (body sid now : Z) (fj : option nat) (rf : bool)
+                                             (* x's protocol machine sends a message.  rf: the implementation's choice,
+                                                admissible only after x has fired its dead callback, to refuse it
+                                                (no sequence number consumed, nothing queued or written); what a dead
+                                                channel does with further submissions is not constrained by the property
+                                                (/repo HEAD accepts them: rf = false) *)
 | Deliver (x : side) (idx : nat) (now : Z) (fj : option nat) (rc : rchoice) (* the network hands x the idx-th packet its peer
                                               ever wrote successfully; never = drop, twice = duplicate, any order = reorder/delay *)
 | Inject (x : side) (p : pkt) (now : Z) (fj : option nat) (rc : rchoice)   (* a packet the peer never sent (hostile network) *)
@@ -299,7 +305,9 @@ Inductive event :=
 
 Definition step (zlb_recv : bool) (s : sys) (ev : event) : sys * obs :=
   match ev with
-  | Submit x body sid now fj => let '(e, o) := ep_submit (ep s x) body sid now fj in (set_ep s x e, o)
+  | Submit x body sid now fj rf =>
+      if rf && (0 <? e_dead (ep s x))%nat then (s, ORefused)
+      else let '(e, o) := ep_submit (ep s x) body sid now fj in (set_ep s x e, o)
   | Deliver x idx now fj rc =>
       match nth_error (e_sent (ep s (peer x))) idx with
       | Some p => let '(e, o) := ep_deliver zlb_recv (ep s x) p now fj rc in (set_ep s x e, o)
